@@ -518,8 +518,9 @@ class Judge:
                     else:
                         run = []
 
-    def report(self):
-        """p2-only classification, then hand the failures to the Check."""
+    def report(self, p2_only=None):
+        """p2-only classification (given by the stored signature in a replay, where one mode is run), then hand the
+        failures to the Check."""
         chk = self.chk
         by = {}
         for fam, counter, kind, p2, desc, case in self.fails:
@@ -531,7 +532,8 @@ class Judge:
             if key in seen:              # one report per (signature, run)
                 continue
             seen.add(key)
-            chk.fail(base + (":p2" if by[base] == {True} else ""), desc, case)
+            only_p2 = (by[base] == {True}) if p2_only is None else p2_only
+            chk.fail(base + (":p2" if only_p2 else ""), desc, case)
 
 
 def compact_table(table, walls):
@@ -665,7 +667,7 @@ def replay(chk, path):
     cases = [(fam, m, p2) for m in ns]
     run_all(chk, judge, cases, variant)
     judge.growth()
-    judge.report()
+    judge.report(p2_only=str(stored.get("signature", "")).endswith(":p2"))
     chk.nontrivial_case("replay-a"); chk.nontrivial_case("replay-b")
     chk.sample({"replayed": case_key(case), "signature": stored.get("signature")})
     chk.extra["tables"] = compact_table(judge.table, judge.walls)
